@@ -9,7 +9,7 @@
    Not modelled: which features the init functions of the four classes request (any sequence of primitive calls
    may follow a definition), values, forces. *)
 From Coq Require Import ZArith List Bool Arith Lia.
-From CV Require Import C13.DepsModel.
+From CV Require Import C13.DepsModel C13.InvModel.
 Import ListNotations.
 Open Scope nat_scope.
 
@@ -223,3 +223,31 @@ Section Module.
   Definition m_empty (natoms : nat) : mstate := mkM [] [] (repeat 0%Z natoms).
 
 End Module.
+
+(* ---- finite checkers of the structural invariants (sound: ModuleProofs.wf_check_sound / acct_check_sound);
+        extracted and run on every state dumped from the implementation *)
+Definition nil_nat (l : list nat) : bool := match l with [] => true | _ => false end.
+
+Definition wf_check (m : mstate) : bool :=
+  let s := m_objs m in let info := m_info m in let n := length s in
+  (length info =? n) &&
+  forallb (fun p =>
+    let ob := get_obj s p in let i := nth p info info_default in
+    forallb (fun c => c <? n) (o_children ob) && forallb (fun c => c <? n) (o_parents ob) &&
+    forallb (fun c => cnt c (o_children ob) =? cnt p (o_parents (get_obj s c))) (seq 0 n) &&
+    forallb (fun c => cnt p (o_children (get_obj s c)) =? cnt c (o_parents ob)) (seq 0 n) &&
+    forallb (fun c => o_class (get_obj s c) =? S (o_class ob)) (o_children ob) &&
+    ((o_class ob <? 3) || nil_nat (o_children ob)) &&
+    (i_alive i || (nil_nat (o_children ob) && nil_nat (o_parents ob) && nil_nat (i_atoms i))) &&
+    ((o_class ob <? 2) || (length (o_parents ob) <=? 1)) &&
+    ((o_class ob =? 3) || nil_nat (i_atoms i)))
+  (seq 0 n).
+
+Fixpoint held_atoms (a : nat) (info : list oinfo) : Z :=
+  match info with
+  | [] => 0%Z
+  | i :: l => (Z.of_nat (cnt a (i_atoms i)) + held_atoms a l)%Z
+  end.
+
+Definition acct_check (m : mstate) : bool :=
+  forallb (fun a => (nth a (m_atoms m) 0%Z =? held_atoms a (m_info m))%Z) (seq 0 (length (m_atoms m))).
